@@ -519,6 +519,12 @@ func genBroker(p brokerProfile, seed int64, n int, tier string, w *bufio.Writer)
 	g := &brokerGen{r: r, w: w, p: p, thorough: tier == "thorough"}
 	total := p.wConnect + p.wSub + p.wUnsub + p.wPub + p.wRel + p.wAck + p.wPing + p.wDisc + p.wClose + p.wSrvPub + p.wSrvSub + p.wSrvUnsub + p.wBadFirst + p.wBadConnect
 	for done := 0; done < n; {
+		if done > 0 && r.Intn(3) == 0 {
+			// the episode ends with Server.Close: every live connection ends without DISCONNECT (wills go
+			// to the in-process subscribers), Close returns, every client sees its connection closed
+			g.emit("srvclose")
+			done++
+		}
 		g.emit("reset")
 		g.live, g.cbsubs, g.next, g.pid = nil, nil, 0, 0
 		g.out2 = map[int][]int{}
